@@ -35,6 +35,19 @@ pub enum NoteKey {
     U(usize),
     /// Sapling output `.1` of pending transaction `.0`
     D(usize, usize),
+    /// transparent UTXO (index into `Env::utxos`)
+    T(usize),
+}
+
+/// A transparent coin the wallet is told about through `put_received_transparent_utxo` (compact
+/// blocks carry no transparent data). Ground truth: received at the default transparent address
+/// of `owner` in a transaction mined at `height`; never spent.
+pub struct Utxo {
+    pub label: &'static str,
+    pub owner: Owner,
+    pub value: u64,
+    pub height: u32,
+    pub hash: [u8; 32],
 }
 
 /// Which blocks make up the current chain: universe blocks F..=base_upto, then `dynb`.
@@ -86,6 +99,9 @@ pub struct Env {
     pub addr_unified: Address,
     pub addr_transparent: Address,
     pub addr_tex: Address,
+    pub utxos: Vec<Utxo>,
+    pub taddr_a: TransparentAddress,
+    pub taddr_b: TransparentAddress,
     /// Start-state snapshots: (name, snapshot, unscanned gap, tip)
     pub starts: Vec<(&'static str, Snapshot, Option<(u32, u32)>, u32)>,
 }
@@ -147,6 +163,27 @@ impl Env {
                 OutputRef::new(TxId::from_bytes(n.txid), pool_type(n.pool), n.output_index as u32)
             }
             NoteKey::D(p, i) => OutputRef::new(TxId::from_bytes(self.pend[p].txid), PoolType::SAPLING, i as u32),
+            NoteKey::T(i) => OutputRef::new(TxId::from_bytes(self.utxos[i].hash), PoolType::TRANSPARENT, 0),
+        }
+    }
+
+    /// Tell the wallet about every transparent coin mined at or below `tip`.
+    fn put_utxos(&self, w: &mut Wallet, tip: u32) {
+        use zcash_client_backend::wallet::WalletTransparentOutput;
+        use zcash_transparent::bundle::{OutPoint, TxOut};
+        use zcash_transparent::keys::TransparentKeyScope;
+        for t in self.utxos.iter().filter(|t| t.height <= tip) {
+            let (addr, acct) = if t.owner == Owner::A { (&self.taddr_a, w.acct_a) } else { (&self.taddr_b, w.acct_b) };
+            let out = WalletTransparentOutput::from_parts(
+                OutPoint::new(t.hash, 0),
+                TxOut::new(Zatoshis::from_u64(t.value).unwrap(), addr.script().into()),
+                Some(BlockHeight::from_u32(t.height)),
+                Some(acct),
+                Some(TransparentKeyScope::EXTERNAL),
+                None,
+            )
+            .expect("p2pkh output");
+            w.db.put_received_transparent_utxo(&out).expect("put_received_transparent_utxo");
         }
     }
 
@@ -154,6 +191,7 @@ impl Env {
         match k {
             NoteKey::U(i) => self.u.notes[i].label.map(|s| s.to_string()).unwrap_or(format!("u{i}")),
             NoteKey::D(p, i) => format!("P{p}.out{i}"),
+            NoteKey::T(i) => self.utxos[i].label.to_string(),
         }
     }
 
@@ -311,21 +349,31 @@ impl Env {
         let addr_unified = Address::Unified(u.keys.ufvk_f.default_address(UnifiedAddressRequest::AllAvailableKeys).expect("foreign UA").0);
         let addr_transparent = Address::Transparent(TransparentAddress::PublicKeyHash([7u8; 20]));
         let addr_tex = Address::Tex([9u8; 20]);
-        let mut env = Env { u, pend: vec![], addr_sapling, addr_unified, addr_transparent, addr_tex, starts: vec![] };
+        let mut w = db::new_wallet(&u, uni::RETENTION, false);
+        let taddr = |w: &Wallet, id| *w.db.get_last_generated_address_matching(id, UnifiedAddressRequest::AllAvailableKeys).expect("address lookup").expect("default address").transparent().expect("transparent receiver");
+        let (taddr_a, taddr_b) = (taddr(&w, w.acct_a), taddr(&w, w.acct_b));
+        let utxos = vec![
+            Utxo { label: "t80", owner: Owner::A, value: 80_000, height: uni::F + 3, hash: [0x80; 32] },
+            Utxo { label: "t7", owner: Owner::A, value: 7_000, height: uni::SHORT_TIP, hash: [0x07; 32] },
+            Utxo { label: "tb", owner: Owner::B, value: 50_000, height: uni::F + 3, hash: [0xb0; 32] },
+        ];
+        let mut env = Env { u, pend: vec![], addr_sapling, addr_unified, addr_transparent, addr_tex, utxos, taddr_a, taddr_b, starts: vec![] };
         let base = ChainDesc { base_upto: uni::T0, dynb: vec![] };
 
         // start state 0: everything scanned in order
-        let mut w = db::new_wallet(&env.u, uni::RETENTION, false);
         env.scan(&mut w, &base, uni::F, uni::T0, true).expect("start state full");
+        env.put_utxos(&mut w, uni::T0);
         env.starts.push(("full", db::snapshot(w.db.conn()), None, uni::T0));
         // start state 1: tip known, the newest blocks scanned first, then the oldest; GAP unscanned
         let mut wg = db::new_wallet(&env.u, uni::RETENTION, false);
         env.scan(&mut wg, &base, uni::GAP.1 + 1, uni::T0, true).expect("start state gap (recent part)");
         env.scan(&mut wg, &base, uni::F, uni::GAP.0 - 1, false).expect("start state gap (old part)");
+        env.put_utxos(&mut wg, uni::T0);
         env.starts.push(("gap", db::snapshot(wg.db.conn()), Some(uni::GAP), uni::T0));
         // start state 2: scanned to SHORT_TIP only (target height below NU6.3 activation)
         let mut ws = db::new_wallet(&env.u, uni::RETENTION, false);
         env.scan(&mut ws, &base, uni::F, uni::SHORT_TIP, true).expect("start state short");
+        env.put_utxos(&mut ws, uni::SHORT_TIP);
         env.starts.push(("short", db::snapshot(ws.db.conn()), None, uni::SHORT_TIP));
 
         // Pending transaction 0: built at target T0+1, spends what a 30_000 payment selects.
